@@ -271,6 +271,54 @@ def short_jobs(tier):
     return jobs
 
 
+def boundary_cases():
+    """range-check boundaries: calendar / week / ordinal / clock / offset values at and just outside their limits"""
+    cases, labels = [], []
+    A = lambda t: tuple(ord(c) for c in t)
+    years = [0, 1, 4, 100, 400, 1582, 1600, 1899, 1900, 1999, 2000, 2003, 2004, 2015, 2016, 2019, 2020, 2023, 2024,
+             2026, 2099, 2100, 9995, 9996, 9998, 9999]
+    for y in years:
+        Y = "%04d" % y
+        for n in (0, 1, 59, 60, 61, 365, 366, 367, 999):
+            for t in (Y + "-%03d" % n, Y + "%03d" % n, Y + "-%03dT12" % n):
+                cases.append((0, None, "str", A(t), True)); labels.append("isoparse|boundary-ordinal")
+            cases.append((1, None, "str", A(Y + "-%03d" % n), True)); labels.append("parse_isodate|boundary-ordinal")
+        for w in (0, 1, 2, 51, 52, 53, 54, 99):
+            for d in (None, 0, 1, 4, 7, 8, 9):
+                t = Y + "-W%02d" % w + ("" if d is None else "-%d" % d)
+                cases.append((0, None, "str", A(t), True)); labels.append("isoparse|boundary-week")
+                cases.append((1, None, "str", A(t.replace("-", "")), True)); labels.append("parse_isodate|boundary-week")
+        for m in (0, 1, 2, 3, 4, 12, 13):
+            for d in (0, 1, 28, 29, 30, 31, 32):
+                cases.append((0, None, "str", A(Y + "-%02d-%02d" % (m, d)), True)); labels.append("isoparse|boundary-calendar")
+                cases.append((1, None, "str", A(Y + "%02d%02d" % (m, d)), True)); labels.append("parse_isodate|boundary-calendar")
+            cases.append((0, None, "str", A(Y + "-%02d" % m), True)); labels.append("isoparse|boundary-calendar")
+    for h in (0, 1, 12, 23, 24, 25, 99):
+        for mi in (0, 1, 59, 60):
+            for sec in (None, 0, 59, 60, 61):
+                for fr in ("", ".0", ",000000", ".000001", ".9999999", ".0000009"):
+                    if sec is None and fr:
+                        continue
+                    t = "%02d:%02d" % (h, mi) + ("" if sec is None else ":%02d" % sec) + fr
+                    cases.append((2, None, "str", A(t), True)); labels.append("parse_isotime|boundary-clock")
+                    cases.append((2, None, "str", A(t.replace(":", "") + "Z"), True)); labels.append("parse_isotime|boundary-clock")
+                    for D in ("2014-12-31T", "9999-12-31T", "20161231 "):
+                        cases.append((0, None, "str", A(D + t), True)); labels.append("isoparse|boundary-clock")
+        cases.append((2, None, "str", A("%02d" % h), True)); labels.append("parse_isotime|boundary-clock")
+    for sg in "+-":
+        for oh in (0, 1, 12, 14, 23, 24, 25, 99):
+            for om in (None, 0, 1, 30, 59, 60, 99):
+                for colon in ((""), (":")):
+                    if om is None and colon:
+                        continue
+                    t = sg + "%02d" % oh + ("" if om is None else colon + "%02d" % om)
+                    for z in (True, False):
+                        cases.append((3, None, "str", A(t), z)); labels.append("parse_tzstr|boundary-offset")
+                    cases.append((2, None, "str", A("12:30" + t), True)); labels.append("parse_isotime|boundary-offset")
+                    cases.append((0, None, "str", A("2014-01-01T00" + t), True)); labels.append("isoparse|boundary-offset")
+    return cases, labels
+
+
 def fixed_cases():
     """bad separator configurations, empty input, single characters"""
     cases, labels = [], []
@@ -354,40 +402,48 @@ def main():
     have_oracle = os.path.exists(os.path.join(C.BIN, "oracle_" + I.AREA))
     tot = new_out()
     spaces, n_reg, cov_summary = [], 0, {"available": False}
-    if have_oracle:
-        o = C.Oracle(I.AREA)
-        n_reg = regressions(o, verdict)
-        fc, fl = fixed_cases()
-        res0 = new_out()
-        evaluate(o, fc, fl, [True] * len(fc), res0)
-        o.close()
-        q = tier == "quick"
-        if q:
-            nproc = 4
-            ejobs = [("q-iso%d" % i, 0, 10, 40) for i in range(6)] + \
-                    [("q-aux%d-%d" % (e, i), e, 12, 40) for e in (1, 2, 3) for i in range(2)]
-        else:
-            nproc = 12
-            ejobs = [("t-iso%d" % i, 0, 40, 300) for i in range(36)] + \
-                    [("t-aux%d-%d" % (e, i), e, 60, 300) for e in (1, 2, 3) for i in range(8)]
-        first, cov_summary = I.measure_anchor_coverage(lambda: job_edits(("cov", 0, 2, 20)))
-        results = [res0, first] + I.run_pool(job_edits, ejobs, nproc) + I.run_pool(job_short, short_jobs(tier), nproc)
-        for res in results:
-            for k in ("evals", "model_diff", "spec_diff", "misread", "bad_exc", "rejects_valid", "accepted"):
-                tot[k] += res[k]
-            for k in ("hist", "outcome", "entries", "kinds"):
-                I.merge_hist(tot[k], res[k])
-            tot["nontrivial"] |= res["nontrivial"]
-            tot["concrete"] += res["concrete"]
-            tot["soft"] += res["soft"]
-            tot["samples"] += res["samples"]
-            if "exhaustive_space" in res:
-                spaces.append(res["exhaustive_space"])
+    try:
+      if have_oracle:
+          o = C.Oracle(I.AREA)
+          n_reg = regressions(o, verdict)
+          fc, fl = fixed_cases()
+          bc, bl = boundary_cases()
+          fc, fl = fc + bc, fl + bl
+          res0 = new_out()
+          evaluate(o, fc, fl, [True] * len(fc), res0)
+          o.close()
+          q = tier == "quick"
+          if q:
+              nproc = 4
+              ejobs = [("q-iso%d" % i, 0, 10, 40) for i in range(6)] + \
+                      [("q-aux%d-%d" % (e, i), e, 12, 40) for e in (1, 2, 3) for i in range(2)]
+          else:
+              nproc = 12
+              ejobs = [("t-iso%d" % i, 0, 40, 300) for i in range(36)] + \
+                      [("t-aux%d-%d" % (e, i), e, 60, 300) for e in (1, 2, 3) for i in range(8)]
+          first, cov_summary = I.measure_anchor_coverage(lambda: job_edits(("cov", 0, 2, 20)))
+          results = [res0, first] + I.run_pool(job_edits, ejobs, nproc) + I.run_pool(job_short, short_jobs(tier), nproc)
+          for res in results:
+              for k in ("evals", "model_diff", "spec_diff", "misread", "bad_exc", "rejects_valid", "accepted"):
+                  tot[k] += res[k]
+              for k in ("hist", "outcome", "entries", "kinds"):
+                  I.merge_hist(tot[k], res[k])
+              tot["nontrivial"] |= res["nontrivial"]
+              tot["concrete"] += res["concrete"]
+              tot["soft"] += res["soft"]
+              tot["samples"] += res["samples"]
+              if "exhaustive_space" in res:
+                  spaces.append(res["exhaustive_space"])
+    except Exception as ex:      # oracle / pool failure: the property is not shown to hold in this run
+        import traceback
+        tot["soft"].append({"kind": "machinery failure during the correspondence run: %r" % (ex,), "input": None,
+                            "traceback": traceback.format_exc()[-2000:]})
     concrete = sorted(tot["concrete"], key=lambda p: (len(p["input"]["codes"]), p["input"]["codes"]))
+    _codes = lambda p: (p.get("input") or {}).get("codes", [])
     for p in concrete[:5]:
         verdict.violation(p, concrete=True)
     if not concrete:
-        for p in sorted(tot["soft"], key=lambda p: len(p["input"]["codes"]))[:3]:
+        for p in sorted(tot["soft"], key=lambda p: len(_codes(p)))[:3]:
             verdict.violation(p, concrete=False)
     if not props["ok"] and not verdict.violations:
         verdict.violation({"kind": "broken proof obligation", "theorem_file": "coq/props/C20.v",
